@@ -210,6 +210,8 @@ def run_shard(shard) -> Result:
                 vals = [ALPHA[i0]] + [ALPHA[i] for i in rest]
                 x = axis_history(vals, axis)
                 patterns = list(itertools.product(SHIFTS, repeat=F)) if F <= 2 else SHIFT3[: shard.get('n3', 6)]
+                if F == 2 and (i0 >= len(FACE) or rest[0] >= len(FACE)):
+                    patterns = patterns[::6]  # histories with a NEAR value: 5 of the 25 shift patterns
                 for k, pat in enumerate(patterns):
                     sh = shift_array(pat, axis, F)
                     viols, key, mode = evaluate(x, M, sh, volume=(k == 0), deep=(k in (1, 7)))
